@@ -14,8 +14,10 @@ mod gen;
 mod hist;
 mod keys;
 mod model;
+mod net;
 mod panics;
 mod parties;
+mod replica;
 mod rng;
 mod tamper;
 mod wire;
@@ -78,9 +80,10 @@ pub fn expected_probes(property: &str) -> Vec<&'static str> {
     match property {
         "C01" => vec!["node-subject-node", "known-value-predicate", "node>=3-assertions", "assertion-with-assertions", "leaf-32-byte-string", "replace-subject-with-node"],
         "C02" => vec!["obscure-already-obscured-doc", "target-is-root", "empty-target-revealing"],
+        "C03" => vec!["hidden-marker-scanned", "target-wrapped", "target-whole-assertion", "target-inside-wrapped", "target-is-root", "wrong-content-refused"],
         "C04" => vec!["remove-last-assertion", "duplicate-add", "replace-subject-with-node", "obscured-in-assertion-slot"],
-        "C05" => vec!["rt-elided", "rt-encrypted", "rt-compressed", "rt-leaf-int", "rt-leaf-text", "rt-leaf-bytes", "rt-leaf-float", "rt-leaf-simple", "rt-leaf-array", "rt-leaf-map", "rt-leaf-tagged", "rt-known", "rt-wrapped", "rt-node-subject-node"],
-        "C07" => vec!["remove-last-assertion", "duplicate-add"],
+        "C05" => vec!["rt-elided", "rt-encrypted", "rt-compressed", "rt-leaf-int", "rt-leaf-text", "rt-leaf-bytes", "rt-leaf-float", "rt-leaf-simple", "rt-leaf-array", "rt-leaf-map", "rt-leaf-tagged", "rt-known", "rt-wrapped", "rt-node-subject-node", "fault-free-reload", "damaged-slot-rejected"],
+        "C07" => vec!["remove-last-assertion", "duplicate-add", "three-or-more-distinct-orders", "duplicate-delivered", "collection-with-4-or-more-elements", "all-permutations-enumerated"],
         _ => vec![],
     }
 }
